@@ -28,7 +28,7 @@ NodeIds(g) == 1..Len(g.nodes)
 \* ------------------------------------------------------------ designation
 \* documents flagged dead are refused by the loader (C08): they designate nothing
 DocAt(g, u, preferOut) ==
-  LET cands == {d \in 1..Len(g.docs) : SameDoc(g.docs[d].url, u) /\ ~g.docs[d].dead}
+  LET cands == {d \in 1..Len(g.docs) : SameDocLocal(g.docs[d].url, u) /\ ~g.docs[d].dead}
       outs  == {d \in cands : g.docs[d].out}
       ins   == cands \ outs
   IN  IF preferOut /\ outs # {} THEN CHOOSE d \in outs : TRUE
